@@ -94,7 +94,7 @@ static void check_case(vg::Src& s, vh::Ctx& c)
     c.desc = fc.describe() + " ops=" + vg::describe(ops) + " history:";
     for (size_t step = 0; step < nsteps; ++step)
     {
-        size_t kind = step == 0 ? 0 : s.weighted({ 110, 30, 40, 40, 18, 18 });
+        size_t kind = step == 0 ? 0 : s.weighted({ 104, 30, 40, 40, 16, 16, 10 });
         if (step == nsteps - 1)
             kind = 0;
         switch (kind)
@@ -125,9 +125,16 @@ static void check_case(vg::Src& s, vh::Ctx& c)
                 cur.mask = mask_set ? mask : std::vector<uint8_t>();
                 cur.bl = bl;
                 cur.bi.is_explicit = bl_explicit;
+                // the fresh graph lives on a fresh grid, or on the SAME grid object as the graph with
+                // the history (several graphs may share a grid; it is destroyed before the next step
+                // while the other graph goes on)
                 Built fresh;
-                fresh.grid = va::make_grid(fc.sp);
-                fresh.graph = va::make_graph(*fresh.grid, cur_ops);
+                bool shared_grid = s.chance(100);
+                if (!shared_grid)
+                    fresh.grid = va::make_grid(fc.sp);
+                else
+                    c.label("fresh-graph-on-shared-grid");
+                fresh.graph = va::make_graph(shared_grid ? *live.grid : *fresh.grid, cur_ops);
                 if (mask_set)
                     fresh.graph->set_mask(mask);
                 if (bl_explicit)
@@ -233,6 +240,23 @@ static void check_case(vg::Src& s, vh::Ctx& c)
                 live.graph->accumulate(1, src, 0, 3.5);
                 c.desc += " accumulate";
                 break;
+            case 6:
+            {
+                // a call that is refused with an error (mask of the wrong shape) must leave the
+                // graph as it was: the next update is compared with a fresh graph as usual
+                bool threw = false;
+                try
+                {
+                    live.graph->set_mask_bad_shape();
+                }
+                catch (const std::exception&)
+                {
+                    threw = true;
+                }
+                c.expect(threw, "bad-mask-accepted", "set_mask with an array of another shape was accepted");
+                c.desc += " set_mask(wrong shape: refused)";
+                break;
+            }
             default:
                 if (single_final && n_updates > 0)
                 {
